@@ -222,6 +222,7 @@ class C09(Machine):
                 if dirty:
                     break
                 if finished and ck in ("cont", "final"):
+                    probe("harness_inconsistency")
                     break       # (only through shrinking: the reset in between was dropped)
                 st = step_by_id[call["start"]]
                 piece = bytes.fromhex(st["args"][0]["b"])
@@ -246,6 +247,7 @@ class C09(Machine):
                     continue
                 if ck == "cont":
                     if len(piece) % nB:
+                        probe("harness_inconsistency")
                         break
                     blocks, counters = continuation_layout(prm, prior, piece)
                     padbits = None
@@ -256,8 +258,10 @@ class C09(Machine):
                         probe("empty_nonfinal_piece")
                 else:
                     if scheme in BYTE_SCHEMES and L is not None:
+                        probe("harness_inconsistency")
                         break
                     if L is not None and (L > 8 * len(piece) or L <= 0):
+                        probe("harness_inconsistency")
                         break
                     blocks, counters, padbits = final_layout(scheme, prm, prior, piece, L)
                     final = True
